@@ -14,6 +14,9 @@ Definition K := code_consts.
 Definition engine_config := set_decimal_config_impl K.
 Definition documented_config := set_decimal_config_spec K.
 Definition D0 := defaults K.
+(* how the engine turns an input literal into a DECIMAL(w,s) value; after a repair: to_scale_lit_spec *)
+Definition engine_to_scale := to_scale_lit_impl.
+Definition documented_to_scale := to_scale_lit_spec.
 
 (* ---------------------------------------------------------------- the tie, checked by the kernel *)
 Definition row_ok (g : globals) (ew es : option Z) : bool :=
@@ -26,11 +29,11 @@ Proof.
   intros g ew es Hg Hw Hs. apply or3_eqb_eq.
   destruct (both_set ew es) eqn:B.
   - (* both variables set: neither the table nor the function looks at g *)
-    pose proof (sweep_cfg_sound [D0] axis (fun g ew es => negb (both_set ew es) || row_ok g ew es)
+    pose proof (sweep_cfg_sound [D0] axis (fun g ew es => if both_set ew es then row_ok g ew es else true)
                   ltac:(vm_compute; reflexivity) D0 ew es (or_introl eq_refl) Hw Hs) as S.
     cbv beta in S. rewrite B in S. simpl in S.
     destruct ew as [w|], es as [s|]; try discriminate. exact S.
-  - pose proof (sweep_cfg_sound priors axis (fun g ew es => both_set ew es || row_ok g ew es)
+  - pose proof (sweep_cfg_sound priors axis (fun g ew es => if both_set ew es then true else row_ok g ew es)
                   ltac:(vm_compute; reflexivity) g ew es Hg Hw Hs) as S.
     cbv beta in S. rewrite B in S. exact S.
 Qed.
@@ -81,7 +84,7 @@ Definition eff_s (s : Z) := eff (d_disable doc_scale) (d_disable_means doc_scale
 
 Theorem C30_out_of_range_rejected_with_config_error : forall (w s : Z) (g : globals),
   ~ (in_doc doc_width w /\ in_doc doc_scale s) ->
-  exists v, fst (run_config documented_config (Some w) (Some s) g) = CfgError v.
+  exists v, fst (run_config documented_config (Some w) (Some s) g) = CfgRejected v.
 Proof.
   intros w s g H. pose proof (C30_config_accept_iff_documented w s g) as A.
   unfold run_config. destruct (documented_config (Some w) (Some s) g) as [g'|v g'] eqn:E; simpl in *.
@@ -104,21 +107,23 @@ Theorem C30_raw_error_iff : forall (w s : Z) (g : globals),
 Proof.
   intros w s g. rewrite run_config_raw_iff.
   pose proof (C30_config_accept_iff_documented_partial w s g) as A.
-  assert (ST : state_after (engine_config (Some w) (Some s) g) = mkG (eff_w w) (eff_s s)).
-  { unfold engine_config, set_decimal_config_impl. simpl from_env.
-    change (eff (c_disable K) (c_max_w K) w) with (eff_w w). change (eff (c_disable K) (c_max_s K) s) with (eff_s s).
-    destruct (_ || _); [reflexivity|]. destruct (_ || _); reflexivity. }
+  pose proof (impl_both_set_state K w s g) as ST. fold engine_config in ST.
+  change (eff (c_disable K) (c_max_w K) w) with (eff_w w) in ST.
+  change (eff (c_disable K) (c_max_s K) s) with (eff_s s) in ST.
+  assert (R : forall a b, 6 <= a -> 6 <= b -> (decimal_type_ok a b = false <-> (duckdb_max_width < a \/ a < b))).
+  { intros a b Ha Hb. destruct (decimal_type_ok a b) eqn:T.
+    - apply decimal_type_ok_iff in T. split; [discriminate | lia].
+    - split; [intros _|reflexivity].
+      assert (N : ~ (1 <= a <= duckdb_max_width /\ 0 <= b <= a)) by (rewrite <- decimal_type_ok_iff, T; discriminate).
+      unfold duckdb_max_width in *. lia. }
+  assert (Bw : (w = d_disable doc_width \/ d_lo doc_width <= w) -> 6 <= eff_w w).
+  { unfold eff_w, eff. change (d_disable doc_width) with (-1). change (d_lo doc_width) with 6.
+    change (d_disable_means doc_width) with 38. destruct (w =? -1) eqn:Q; [lia|]. apply Z.eqb_neq in Q. lia. }
+  assert (Bs : in_doc doc_scale s -> 6 <= eff_s s).
+  { unfold eff_s, eff, in_doc. change (d_disable doc_scale) with (-1). change (d_lo doc_scale) with 6.
+    change (d_disable_means doc_scale) with 15. destruct (s =? -1) eqn:Q; [lia|]. apply Z.eqb_neq in Q. lia. }
   destruct (engine_config (Some w) (Some s) g) as [g'|v g'] eqn:E; simpl in A, ST.
-  - subst g'. simpl. assert (A' := proj1 A eq_refl). destruct A' as (Aw & As).
-    assert (R : decimal_type_ok (eff_w w) (eff_s s) = false <-> (duckdb_max_width < eff_w w \/ eff_w w < eff_s s)).
-    { destruct (decimal_type_ok (eff_w w) (eff_s s)) eqn:T.
-      - apply decimal_type_ok_iff in T. split; [discriminate | lia].
-      - split; [intros _|reflexivity].
-        assert (N : ~ (1 <= eff_w w <= duckdb_max_width /\ 0 <= eff_s s <= eff_w w))
-          by (rewrite <- decimal_type_ok_iff, T; discriminate).
-        assert (6 <= eff_w w) by (unfold eff_w, eff; destruct (w =? _) eqn:Q; vm_compute in Aw |- *; [discriminate | apply Z.eqb_neq in Q; vm_compute in Q; lia]).
-        assert (6 <= eff_s s) by (unfold eff_s, eff; destruct (s =? _) eqn:Q; vm_compute in As |- *; [discriminate | apply Z.eqb_neq in Q; vm_compute in Q; lia]).
-        unfold duckdb_max_width in *. lia. }
+  - subst g'. destruct (proj1 A eq_refl) as (Aw & As). specialize (R _ _ (Bw Aw) (Bs As)).
     split.
     + intros (g' & Hg & T). injection Hg as <-. simpl in T. apply R in T. tauto.
     + intros (_ & _ & T). eexists. split; [reflexivity|]. simpl. apply R. exact T.
@@ -163,7 +168,7 @@ Proof. intros. apply spec_history_independent. Qed.
 
 (* witnesses: after a rejected scale (3) / an out-of-range width (45) a run with both variables unset no longer gets the defaults *)
 Theorem C30_history_independent_refuted : exists ew es g1 g2, In g1 priors /\ In g2 priors /\
-  fst (run_config engine_config ew es g1) = CfgOk 28 10 /\ fst (run_config engine_config ew es g2) = CfgError VarScale.
+  fst (run_config engine_config ew es g1) = CfgOk 28 10 /\ fst (run_config engine_config ew es g2) = CfgRejected VarScale.
 Proof. exists None, None, D0, (mkG 28 3). split; [vm_compute; tauto|]. split; [vm_compute; tauto|]. split; reflexivity. Qed.
 
 Theorem C30_history_independent_refuted_raw : exists g2, In g2 priors /\
@@ -199,6 +204,26 @@ Proof. exact load_reject_iff. Qed.
 Theorem C30_load_fits : forall w s m e v, load w s m e = Some v -> Z.abs v < 10 ^ w.
 Proof. intros. apply load_some in H. tauto. Qed.
 
+(* inputs in exponent notation (floats below 1e-4 of a DataFrame, CSV text): documented = the exact value rounded *)
+Theorem C30_load_rounds_to_scale_all_notations : forall s M x, 0 <= s ->
+  documented_to_scale s (Sci M x) = (if x <=? 0 then to_scale s M (- x) else to_scale s (M * 10 ^ x) 0) /\
+  (forall m e, documented_to_scale s (Plain m e) = to_scale s m e /\ engine_to_scale s (Plain m e) = to_scale s m e).
+Proof. intros. split; [reflexivity | intros; split; reflexivity]. Qed.
+
+(* the engine (through DuckDB's VARCHAR -> DECIMAL cast) stores 5e-30 as 0.0000000001 under the default DECIMAL(28,10) *)
+Theorem C30_load_rounds_to_scale_refuted : exists M x,
+  documented_to_scale 10 (Sci M x) = 0 /\ engine_to_scale 10 (Sci M x) = 1 /\
+  binop_case_lit engine_to_scale false (CfgOk 28 10) (Sci M x) (Plain 0 0) = OValue 10 1.
+Proof. exists 5, (-30). vm_compute. repeat split. Qed.
+
+Theorem C30_load_rounds_to_scale_partial : forall s M x, 0 <= s -> - (x + s) <= ndigits M ->
+  engine_to_scale s (Sci M x) = documented_to_scale s (Sci M x).
+Proof. exact lit_impl_eq_spec_when_digits_remain. Qed.
+
+Theorem C30_plain_literals_case : forall sub o m1 e1 m2 e2,
+  binop_case_lit engine_to_scale sub o (Plain m1 e1) (Plain m2 e2) = binop_case sub o m1 e1 m2 e2.
+Proof. intros. apply binop_case_lit_plain. reflexivity. Qed.
+
 (* sums and differences at scale s are the exact rational sums and differences (unbounded) *)
 Theorem C30_sum_diff_exact : forall s a b, 0 <= s ->
   (dec_val s (dec_add a b) == dec_val s a + dec_val s b)%Q /\ (dec_val s (dec_sub a b) == dec_val s a - dec_val s b)%Q.
@@ -209,20 +234,21 @@ Theorem C30_result_is_sum_of_loaded : forall sub w s m1 e1 m2 e2 s' r,
   s' = s /\ exists a b, load w s m1 e1 = Some a /\ load w s m2 e2 = Some b /\ r = (if sub then dec_sub a b else dec_add a b).
 Proof. exact binop_value_inv. Qed.
 
-(* below DuckDB's maximal width the result type DECIMAL(w+1,s) always holds the exact result; at 38 it may not *)
-Theorem C30_no_overflow_below_38 : forall sub w s m1 e1 m2 e2, 0 <= w < duckdb_max_width ->
-  binop_case sub (CfgOk w s) m1 e1 m2 e2 <> OOverflow.
-Proof. exact binop_no_overflow_below_38. Qed.
+(* except at the two widths where DuckDB does not widen the result type (18, 38) the exact result always fits *)
+Theorem C30_no_overflow_except_18_38 : forall sub w s m1 e1 m2 e2,
+  0 <= w -> w <> duckdb_int64_width -> w <> duckdb_max_width -> binop_case sub (CfgOk w s) m1 e1 m2 e2 <> OOverflow.
+Proof. exact binop_no_overflow. Qed.
 
-Theorem C30_overflow_possible_at_38 : exists m, binop_case false (CfgOk 38 10) m 0 1 0 = OOverflow.
-Proof. exists (10 ^ 28 - 1). vm_compute. reflexivity. Qed.
+Theorem C30_overflow_possible_at_18_and_38 :
+  (exists m, binop_case false (CfgOk 38 10) m 0 1 0 = OOverflow) /\ (exists m, binop_case false (CfgOk 18 10) m 0 1 0 = OOverflow).
+Proof. split; [exists (10 ^ 28 - 1) | exists (10 ^ 8 - 1)]; vm_compute; reflexivity. Qed.
 
 (* non-vacuity: accepted and rejected settings exist, a half-way value rounds away from zero, an overflowing one is rejected *)
 Example C30_nonvacuous :
   fst (run_config engine_config None None D0) = CfgOk 28 10 /\
   fst (run_config engine_config (Some (-1)) (Some (-1)) D0) = CfgOk 38 15 /\
-  fst (run_config engine_config (Some 28) (Some 3) D0) = CfgError VarScale /\
-  fst (run_config engine_config (Some 3) None D0) = CfgError VarWidth /\
+  fst (run_config engine_config (Some 28) (Some 3) D0) = CfgRejected VarScale /\
+  fst (run_config engine_config (Some 3) None D0) = CfgRejected VarWidth /\
   load 28 10 5 11 = Some 1 /\ load 28 10 (-5) 11 = Some (-1) /\ load 28 10 49 12 = Some 0 /\
   load 28 10 (10 ^ 18) 0 = None /\ load 28 10 (10 ^ 18 - 1) 0 = Some ((10 ^ 18 - 1) * 10 ^ 10) /\
   binop_case true (CfgOk 28 10) 15 1 225 2 = OValue 10 (-7500000000).
@@ -245,6 +271,8 @@ Print Assumptions C30_history_independent_partial.
 Print Assumptions C30_unset_run_repeats_previous_outcome.
 Print Assumptions C30_load_rounds_to_scale.
 Print Assumptions C30_load_rejects_overflow.
+Print Assumptions C30_load_rounds_to_scale_refuted.
+Print Assumptions C30_load_rounds_to_scale_partial.
 Print Assumptions C30_sum_diff_exact.
 Print Assumptions C30_result_is_sum_of_loaded.
-Print Assumptions C30_no_overflow_below_38.
+Print Assumptions C30_no_overflow_except_18_38.
